@@ -233,15 +233,22 @@ type mutator struct {
 
 func (m *mutator) pick(n int) int { return m.rng.Intn(n) }
 
+const nByteMutations, nPropMutations = 16, 12
+
 // byteMutant applies one random byte-level mutation to b.
 func (m *mutator) byteMutant(b []byte, other []byte) mutant {
+	return m.byteMutantN(m.pick(nByteMutations), b, other)
+}
+
+// byteMutantN applies byte-level mutation number n.
+func (m *mutator) byteMutantN(n int, b []byte, other []byte) mutant {
 	first, body, h := split(b)
 	cp := func() []byte { return append([]byte{}, b...) }
 	withRL := func(field []byte) []byte {
 		out := append([]byte{first}, field...)
 		return append(out, body...)
 	}
-	switch m.pick(16) {
+	switch n {
 	case 0:
 		if h.rl > 0 {
 			return mutant{kind: "rl-1", in: withRL(putVarint(uint32(h.rl - 1)))}
@@ -330,6 +337,10 @@ func (m *mutator) byteMutant(b []byte, other []byte) mutant {
 
 // propMutant alters the property field of a v5 packet on the byte level.
 func (m *mutator) propMutant(b []byte, p *mqttx.Packet) (mutant, bool) {
+	return m.propMutantN(m.pick(nPropMutations), b, p)
+}
+
+func (m *mutator) propMutantN(n int, b []byte, p *mqttx.Packet) (mutant, bool) {
 	lenAt, start, end, ok := propRegion(b, p)
 	if !ok {
 		return mutant{}, false
@@ -344,7 +355,7 @@ func (m *mutator) propMutant(b []byte, p *mqttx.Packet) (mutant, bool) {
 		}
 		return out
 	}
-	switch m.pick(12) {
+	switch n {
 	case 0:
 		if len(toks) > 0 {
 			t := toks[m.pick(len(toks))]
